@@ -102,7 +102,8 @@ type Exec struct {
 	stateKey  uint64
 	opts      []*Thread
 	costs     []int8
-	objVer    map[int]uint32
+	objVer    []uint32
+	joinAddr  *byte // race mode: released by every thread at exit, acquired by Run's caller
 	// User is free for the harness (per-execution context).
 	User any
 }
@@ -137,7 +138,7 @@ func Run(body func(), ch Chooser, cfg Config) *Result {
 	}
 	e := &Exec{ch: ch, mainWake: make(chan struct{}, 1), exitAck: make(chan struct{}, 1),
 		horizon: cfg.Horizon, keepTrace: cfg.KeepTrace, keepKeys: cfg.KeepKeys, User: cfg.User,
-		objVer: map[int]uint32{}}
+		joinAddr: new(byte)}
 	if e.horizon == 0 {
 		e.horizon = 200000
 	}
@@ -166,6 +167,7 @@ func Run(body func(), ch Chooser, cfg Config) *Result {
 		}
 	}
 	e.res.Steps = e.steps
+	raceAcquireAddr(e.joinAddr)
 	cur = nil
 	r := e.res
 	return &r
@@ -204,6 +206,7 @@ func threadExit(e *Exec, t *Thread) {
 	t.done = true
 	t.op = nil
 	if _, ok := r.(abortSentinel); ok || e.aborting {
+		raceReleaseMergeAddr(e.joinAddr)
 		raceDisable()
 		e.exitAck <- struct{}{}
 		raceEnable()
@@ -213,6 +216,7 @@ func threadExit(e *Exec, t *Thread) {
 		if e.res.Panic == nil {
 			e.res.Panic = &PanicInfo{Thread: t.Name, Value: fmt.Sprint(r), Stack: trimStack(string(debug.Stack()))}
 		}
+		raceReleaseMergeAddr(e.joinAddr)
 		raceDisable()
 		e.mainWake <- struct{}{}
 		raceEnable()
@@ -427,6 +431,9 @@ func (e *Exec) schedule(from *Thread) {
 	if e.keepKeys {
 		// Mazurkiewicz-style key: commutative sum over steps of a hash of
 		// (thread, thread-local op index, kind, object, object version).
+		for len(e.objVer) <= op.Obj {
+			e.objVer = append(e.objVer, 0)
+		}
 		v := e.objVer[op.Obj]
 		e.objVer[op.Obj] = v + 1
 		k := sh ^ (uint64(next.nops) * 0x9e3779b97f4a7c15) ^ (uint64(v+1) * 0xd6e8feb86659fd93)
@@ -447,6 +454,9 @@ func (e *Exec) schedule(from *Thread) {
 		return
 	}
 	e.running = next
+	if from.done {
+		raceReleaseMergeAddr(e.joinAddr)
+	}
 	raceDisable()
 	next.wake <- struct{}{}
 	if from.done {
@@ -464,6 +474,7 @@ func (e *Exec) schedule(from *Thread) {
 //
 //go:norace
 func (e *Exec) handToMain(from *Thread) {
+	raceReleaseMergeAddr(e.joinAddr)
 	raceDisable()
 	e.mainWake <- struct{}{}
 	if from.done {
